@@ -726,7 +726,13 @@ func (g *Gen) opHTTP(method string) {
 	url := api + p
 	body := ""
 	if method == "POST" {
-		url += "/" + g.sample("method", g.methods())
+		m := g.sample("method", g.methods())
+		if rapid.IntRange(0, 7).Draw(g.t, "dotmethod") == 0 {
+			// an escaped dot inside the method segment: no valid method, and not a
+			// way to reach the resource one token further down
+			m = g.sample("method", g.methods()) + "%2E" + m
+		}
+		url += "/" + m
 		if rapid.IntRange(0, 2).Draw(g.t, "hasbody") == 0 {
 			body = `{"a":1}`
 		}
